@@ -1,15 +1,9 @@
 import CnvVerif.Driver.Json
-import CnvVerif.Driver.Interval
-import CnvVerif.Driver.Call
-import CnvVerif.Driver.SegFilter
-import CnvVerif.Driver.Tile
-import CnvVerif.Driver.Center
-import CnvVerif.Driver.Fix
-import CnvVerif.Driver.Access
+import CnvVerif.Driver.Coverage
 open Lean CnvVerif.Drv
 
 def handlers : List (String → Json → Option Json → R (Option Json)) :=
-  [handleInterval, handleCall, handleSegFilter, handleTile, handleCenter, handleFix, handleAccess]
+  [handleCoverage]
 
 def dispatch (op : String) (inp : Json) (impl : Option Json) : R Json := do
   for h in handlers do
